@@ -170,10 +170,18 @@ pub(super) fn generate_parser_actions(generator: &ParserGenerator) -> Result<()>
         .iter()
         .filter(|nt| nt.reachable.get())
         .for_each(|nonterminal| {
-            // Add non-terminal type
-            if !type_names.contains(&nonterminal.name) {
-                log!("Creating types for non-terminal '{}'.", nonterminal.name);
-                for ty in actions_generator.nonterminal_types(nonterminal, generator.settings) {
+            // Add non-terminal types. A non-terminal can have several types
+            // (e.g. an enum and a struct for each of its variants). Each of
+            // them is added only if it is missing.
+            for ty in actions_generator.nonterminal_types(nonterminal, generator.settings) {
+                let type_name = match &ty {
+                    syn::Item::Enum(e) => e.ident.to_string(),
+                    syn::Item::Struct(e) => e.ident.to_string(),
+                    syn::Item::Type(e) => e.ident.to_string(),
+                    _ => String::new(),
+                };
+                if !type_names.contains(&type_name) {
+                    log!("Creating type '{}' for non-terminal '{}'.", type_name, nonterminal.name);
                     ast.items.push(ty);
                 }
             }
